@@ -102,6 +102,7 @@ ConnectStep(ln, a0) ==
           ELSE /\ A("uri", "stored node uri", a.full => uri = norm)
                /\ A("lowbal", "connect refusal for balance", low = LowAtConnect(P1, a, uri))
                /\ A("lowbal", "reported balance at connect", low => r.val = e.res.val)
+               /\ A("billing", "billing restarts at connect", (r.ok /\ Has(ln.st.node, a.ident)) => ln.st.node[a.ident].seen = e.st.now)
                /\ A("exact", "connect result", SameRes(r, e.res))
                /\ NoCalls(ln.st)
                /\ PFinish(e.st, ln)
@@ -131,6 +132,7 @@ UpdateStep(ln) ==
                   IF low THEN CallSet(ln.st) = e.calls /\ Len(ln.st.calls) = Cardinality(e.calls)
                   ELSE Len(ln.st.calls) = 0)
              /\ A("billing", "balances after keep-alive", ObsBals(e.st, ln.st))
+             /\ A("billing", "billing start moves to this keep-alive", Has(ln.st.node, a.ident) => ln.st.node[a.ident].seen = P1.now)
              /\ A("billing", "balance in update reply",
                   r.ok => /\ r.val.balance.account = e.res.val.balance.account
                           /\ r.val.balance.credit = e.res.val.balance.credit
@@ -385,7 +387,7 @@ PStoreStep(ln) == NoCalls(ln.st) /\ PoolObsOK(S, ln.st) /\ StoreStep(ln)
 
 PTNext == /\ l <= Len(Trace)
           /\ LET ln == Trace[l] IN
-             /\ ln.bad = ""
+             /\ LineOK(ln)
              /\ \/ PResetStep(ln)
                 \/ BurstStep(ln)
                 \/ IsStoreOp(ln.op) /\ PStoreStep(ln)
